@@ -17,6 +17,14 @@ add("C03", "exploration",
     "Bounded-exhaustive enumeration of V5/V7 input shapes on the real parse_bytes against an independent offset-table decoder: every byte offset x all 256 values of two byte-distinct packets, all field pairs x boundary values, every count 0..=65535 over short and maximal buffers, every materialisable record count, all 256 protocol numbers, every proper prefix. Stateless property over inputs, so exhaustive enumeration of the shape space is the deciding step.",
     "trusted: reference decoder refmodel::ref_fixed and the IANA keyword table mc/src/iana.rs; byte values beyond the walking-byte/boundary alphabets are not covered",
     "bounded-exhaustive input enumeration vs reference decoder (explicit-state, stateless)", "DESIGN.md §5 C03", "E-ENUM")
+add("C06", "model_checking",
+    "Explicit-state model checking of the real template caches: stateright BFS to the FIXPOINT of the reachable graph whose states are (canonical content of the real caches of every parser instance, reference latest-wins cache) and whose transitions apply one action of a 36-action-per-instance alphabet (T/OT/D/TD/DT/[T++D] for V9 and IPFIX over two or three ids and two or three layouts, V5, V7, garbage, unknown version, truncated and incomplete templates, mixed buffer) with the real parse_bytes, on two instances with different allowed sets. Every transition checks: decode = reference under the latest definition; caches = reference prediction (so inert input changes nothing); no eviction; instance and protocol isolation; buffer = one-packet-per-call delivery; and soundness of state merging (parser rebuilt from the snapshot vs parser that replayed the full history).",
+    "closed under the stated alphabet only; trusted: refmodel.rs, explore.rs, stateright's fingerprint deduplication",
+    "explicit-state model checking of the implementation (stateright BFS to fixpoint) against a reference model", "DESIGN.md §5 C06", "E-HIST")
+add("C07", "model_checking",
+    "In EVERY state of C06's reachable graph (same stateright search, probes evaluated once per unique state) data for every (instance, protocol, id) the state lacks - including ids known only to the other protocol or the other parser instance - is offered alone, as first/middle/last set, and after other packets in the buffer: no decoded records, V9 packet is the final error, IPFIX keeps earlier sets, caches and earlier packets unchanged, and the same bytes decode per the reference once the template arrives.",
+    "closed under C06's alphabet; trusted: refmodel.rs, explore.rs",
+    "explicit-state model checking with per-state probes (stateright BFS to fixpoint)", "DESIGN.md §5 C07", "E-HIST")
 add("C08", "exploration",
     "Exhaustive enumeration of the C03 input spaces under the oracle to_be_bytes(parse(x)) == occupied slice, and of all pairs of struct fields x boundary values x record position x counts {0,1,2,3,max} under the oracle parse(to_be_bytes(s)) == s.",
     "trusted: the slice a packet occupied is computed by the reference layout; struct domain restricted to count == flowsets.len() and protocol_type consistent with protocol_number",
@@ -74,6 +82,7 @@ m = {
     },
     "engines": [
         {"name": "E-SWEEP", "path": "/verif/mc/src/sweep.rs", "serves_properties": [c["property_id"] for c in checks if c["engine"] == "E-SWEEP"], "kind_free_text": "exhaustive evaluation of index ranges in isolated worker processes (2 MiB thread, catch_unwind, counting allocator with live-heap budget, heartbeat watchdog); abnormal exits are attributed to the index in flight"},
+        {"name": "E-HIST", "path": "/verif/mc/src/explore.rs", "serves_properties": [c["property_id"] for c in checks if c["engine"] == "E-HIST"], "kind_free_text": "explicit-state search over call histories on stateright 0.31 (parallel BFS, fingerprint deduplication): states are real cache contents x reference cache, transitions call the real parse_bytes"},
         {"name": "E-ENUM", "path": "/verif/mc/src/engine.rs", "serves_properties": [c["property_id"] for c in checks if c["engine"] == "E-ENUM"], "kind_free_text": "index-addressable exhaustive enumeration of finite input/history/configuration spaces on the real parser, rayon-parallel, judged against a reference model or a relational law"},
     ],
     "checks": checks,
